@@ -40,6 +40,7 @@ deriving DecidableEq, Repr
 structure Code where
   target : Nat
   activated : Bool
+  actBy : Option Nat := none   -- the client that activated it (history): the mapping `actBy → target` it created is in `World.maps`
 deriving DecidableEq, Repr
 
 structure World where
